@@ -11,7 +11,7 @@ RULE = ("cases are a scene (module variables; factories whose locals are capture
         "as a list sharing one local, or nested two deep, or created inside an if / else / while / from block of a factory that shadows a captured variable with a same-named local, or over an OPTIONAL local that closures bump and reset to nil through `modify`, or over a local holding a list / a function that `modify` replaces by an equal-looking new value; readers / setters / incrementers / shadowing bodies; higher-order "
         "callers that deliberately own locals with the same names as captured variables) plus a history of up to 12 steps "
         "(create instance, call closure directly / through an alias / through a list / through a higher-order function / "
-        "inside a block, owner assignment, print, is_closure()); a print follows every step. Oracle = reference interpreter "
+        "inside a block, owner writes in every form - assignment, op-assignment, assignment inside a block, `?=` as statement / as `if` or `while` condition / inside a block, at module level and inside a factory after the closure exists -, print, is_closure()); a print follows every step. Oracle = reference interpreter "
         "with explicit cells. Non-trivial = a write through one closure is later observed through another closure or the "
         "owner, or two instances of one factory coexist; distinct by program text")
 ASSUMPTIONS = ["capture rule: the free variables of the function body (transitively); is_closure() <=> that set is non-empty"]
@@ -99,7 +99,7 @@ def cases(draw):
         local = g.choice(mvars) if g.chance(30) else "c%d" % fi
         if local in mvars:
             g.label("factory-local-shadows-module-var")
-        shape = g.weighted([(3, "single"), (3, "pair"), (2, "nested"), (1, "mixed"), (3, "blockcreate"), (2, "elemwrite"), (2, "optstate"), (2, "liststate"), (2, "fnstate")])
+        shape = g.weighted([(3, "single"), (3, "pair"), (2, "nested"), (1, "mixed"), (3, "blockcreate"), (2, "elemwrite"), (2, "optstate"), (2, "liststate"), (2, "fnstate"), (3, "ownerwrite")])
         if shape == "elemwrite":
             # a closure whose ONLY use of a captured list is as the target of an element assignment / op-assignment (and whose
             # only use of a captured int is as the index) must still capture them
@@ -118,6 +118,38 @@ def cases(draw):
             facts.append((fname, "list"))
             stmts.append(("decl", fname, None, ("fn", [("init", "int")], ("list", FI), body), ()))
             g.label("captured-only-as-assignment-target:" + wk)
+            continue
+        if shape == "ownerwrite":
+            # the OWNER writes its variable after the closure over it exists, in every form the language has for a write: the
+            # closure must see the new value
+            form = g.choice(["assign", "opassign", "assign-in-block", "opassign-in-loop", "unwrap", "unwrap-in-if", "unwrap-in-while", "unwrap-in-block"])
+            k = g.int(1, 9)
+            if form.startswith("unwrap"):
+                rd = ("fn", [], "int", [("return", ("or", V("oc"), I(0 - 1)))])
+                pre = [("decl", "oc", ("opt", "int"), ("nil",) if g.chance(60) else V("init"), ()), ("decl", "rd", None, rd, ()), ("decl", "src", ("opt", "int"), ("bin", "+", V("init"), I(k)), ())]
+                if form == "unwrap":
+                    wr = [("expr", ("unwrap_stmt", "oc", V("src")))]
+                elif form == "unwrap-in-if":
+                    wr = [("if", ("unwrap", "oc", V("src")), [("print", S("took"))], [("print", S("none"))])]
+                elif form == "unwrap-in-while":
+                    wr = [("decl", "go", None, I(0), ()), ("while", ("bin", "&&", ("bin", "<", V("go"), I(1)), ("unwrap", "oc", V("src"))), [("decl", "go", None, ("bin", "+", V("go"), I(1)), ())])]
+                else:
+                    wr = [("if", ("bin", ">=", V("init"), I(0)), [("expr", ("unwrap_stmt", "oc", V("src")))], None)]
+            else:
+                rd = ("fn", [], "int", [("return", V("oc"))])
+                pre = [("decl", "oc", None, V("init"), ()), ("decl", "rd", None, rd, ())]
+                if form == "assign":
+                    wr = [("decl", "oc", None, ("bin", "+", V("init"), I(k)), ())]
+                elif form == "opassign":
+                    wr = [("opassign", V("oc"), g.choice(["+=", "-=", "*="]), I(k))]
+                elif form == "assign-in-block":
+                    wr = [("if", ("bin", ">=", V("init"), I(0)), [("decl", "oc", None, ("bin", "+", V("init"), I(k)), ())], None)]
+                else:
+                    wr = [("from", I(0), I(2), False, None, None, [("opassign", V("oc"), "+=", I(k))])]
+            body = pre + [("print", ("call", V("rd"), []))] + wr + [("print", ("call", V("rd"), [])), ("return", V("rd"))]
+            facts.append((fname, "int"))
+            stmts.append(("decl", fname, None, ("fn", [("init", "int")], FI, body), ()))
+            g.label("feat:owner-writes-after-capture:" + form)
             continue
         if shape == "optstate":
             # the captured variable is OPTIONAL: closures store plain values and nil into it through `modify`
@@ -218,6 +250,10 @@ def cases(draw):
         else:
             stmts.append(("decl", name, None, body_for(kind, v, k=g.int(1, 3)), ()))
             closures.append((name, "int"))
+    # an OPTIONAL module variable, read by a closure; the module (its owner) writes it with `?=` during the history
+    stmts.append(("decl", "ov", ("opt", "int"), ("nil",), ()))
+    stmts.append(("decl", "rov", None, ("fn", [], "int", [("return", ("or", V("ov"), I(0 - 1)))]), ()))
+    closures.append(("rov", "int"))
     # history
     inst = 0
     per_factory = {}
@@ -225,7 +261,7 @@ def cases(draw):
     observed_after_write = False
     n_steps = g.int(3, 12)
     for step in range(n_steps):
-        ops = [(3, "call"), (2, "assign"), (1, "isclosure"), (2, "apply"), (1, "alias"), (1, "inblock"), (1, "printvar")]
+        ops = [(3, "call"), (2, "assign"), (1, "opassign"), (1, "blockassign"), (2, "unwrap"), (1, "isclosure"), (2, "apply"), (1, "alias"), (1, "inblock"), (1, "printvar")]
         if facts:
             ops.append((3, "instantiate"))
         if any(k == "set" for _, k in closures):
@@ -250,6 +286,30 @@ def cases(draw):
             v = g.choice(mvars)
             stmts.append(("decl", v, None, I(g.int(0, 9)), ()))
             wrote = True
+        elif op == "opassign":
+            stmts.append(("opassign", V(g.choice(mvars)), g.choice(["+=", "-=", "*="]), I(g.int(1, 5))))
+            wrote = True
+            g.label("feat:owner-write:opassign")
+        elif op == "blockassign":
+            v = g.choice(mvars)
+            inner = [("decl", v, None, I(g.int(10, 19)), ())]
+            stmts.append(g.choice([("if", ("bin", ">=", V(v), I(0 - 99)), inner, None), ("from", I(0), I(1), False, None, None, inner)]))
+            wrote = True
+            g.label("feat:owner-write:in-block")
+        elif op == "unwrap":
+            src = "os%d" % step
+            stmts.append(("decl", src, ("opt", "int"), ("nil",) if g.chance(25) else I(g.int(20, 29)), ()))
+            form = g.choice(["stmt", "if", "block"])
+            if form == "stmt":
+                stmts.append(("expr", ("unwrap_stmt", "ov", V(src))))
+            elif form == "if":
+                stmts.append(("if", ("unwrap", "ov", V(src)), [("print", S("took"))], [("print", S("none"))]))
+            else:
+                stmts.append(("if", ("bin", ">=", V(mvars[0]), I(0 - 99)), [("expr", ("unwrap_stmt", "ov", V(src)))], None))
+            stmts.append(("print", ("call", V("rov"), [])))
+            wrote = True
+            observed_after_write = True
+            g.label("feat:owner-write:unwrap-" + form)
         elif op == "printvar":
             stmts.append(("print", V(g.choice(mvars))))
             observed_after_write = observed_after_write or wrote
